@@ -3,7 +3,7 @@
 (*  Mode "tiles" (C05): sources (tile format x stored codec x container) x    *)
 (*    coordinate classes x all 32 subsets of {gzip, br, deflate, identity,    *)
 (*    zstd} x header renderings x server instances (best/fast, flip, swap).   *)
-(*  Mode "static" (C07): all segment sequences up to MaxSegs over 13 classes  *)
+(*  Mode "static" (C07): all segment sequences up to MaxSegs over 16 classes  *)
 (*    x mounts (folder at /, folder at /pre/, tar at /tar/).                  *)
 EXTENDS Server, Json, SequencesExt
 
